@@ -287,7 +287,8 @@ def run(tier: str, seed: int) -> Report:
                 start = t["init"] if lo == 0 or t["indep"] else {"s": t["steps"][lo - 1]["s"], "l": t["steps"][lo - 1]["l"]}
                 a["detail"] = {"meta": t["meta"], "B": t["B"], "start_state": start,
                                "requests": [s["hex"] for s in t["steps"][lo:idx]],
-                               "failing": {k: t["steps"][idx - 1][k] for k in ("hex", "rhex", "x", "s", "l", "pk")},
+                               "failing": dict({k: t["steps"][idx - 1][k] for k in ("rhex", "x", "s", "l", "pk")},
+                                               hex=t["steps"][idx - 1]["hex"][:64]),
                                "mc_model": bool(t["meta"].get("mc", False))}
     for a in agg.values():
         a["detail"]["occurrences"] = a["n"]
@@ -303,7 +304,7 @@ def run(tier: str, seed: int) -> Report:
             if not t["indep"]:
                 prev = s["s"]
     for t in (corpus.traces[0], corpus.traces[len(corpus.traces) // 2]):
-        rep.sample({"model": t["meta"], "B": t["B"], "exchanges": [(s["hex"], s["rhex"], s["s"], s["l"])
+        rep.sample({"model": t["meta"], "B": t["B"], "exchanges": [(s["hex"][:32], s["rhex"], s["s"], s["l"])
                                                                      for s in t["steps"][:8]]})
     origins: dict[str, int] = {}
     for t in corpus.traces:
@@ -436,13 +437,13 @@ def replay(path: str) -> int:
             p.fresh(set(d["B"]))
             s.state.session = d["start_state"]["s"]
             s.state.security_access_level = None if d["start_state"]["l"] < 0 else d["start_state"]["l"]
-            steps = [await p.exchange(bytes.fromhex(h)) for h in d["requests"] if ".." not in h]
+            steps = [await p.exchange(bytes.fromhex(h)) for h in d["requests"]]
             c = E.Corpus()
             c.add(m=c.model_index(m), B=set(d["B"]), mode="E", steps=steps, meta={},
                   init=(d["start_state"]["s"], d["start_state"]["l"]))
             res = c.validate(parallel=1)
             verdict, badsteps, _u = res[0]
-            print(f"replay B-off={sorted(set(E.RULES) - set(d['B']))} requests={d['requests'][-4:]} "
+            print(f"replay B-off={sorted(set(E.RULES) - set(d['B']))} requests={[h[:24] for h in d['requests'][-4:]]} "
                   f"reply={steps[-1]['rhex']} raised={steps[-1]['x'] or '-'} verdict={verdict}")
             bad += verdict != "ok"
         return bad
